@@ -212,13 +212,20 @@ func (r *GRPCResponseExpr) Finalize(a *GRPCEndpointExpr, svcAtt *AttributeExpr) 
 
 // Dup creates a copy of the response expression.
 func (r *GRPCResponseExpr) Dup() *GRPCResponseExpr {
-	return &GRPCResponseExpr{
+	res := GRPCResponseExpr{
 		StatusCode:  r.StatusCode,
 		Description: r.Description,
 		Parent:      r.Parent,
 		Meta:        r.Meta,
-		Message:     DupAtt(r.Message),
-		Headers:     NewMappedAttributeExpr(r.Headers.Attribute()),
-		Trailers:    NewMappedAttributeExpr(r.Trailers.Attribute()),
 	}
+	if r.Message != nil {
+		res.Message = DupAtt(r.Message)
+	}
+	if r.Headers != nil {
+		res.Headers = NewMappedAttributeExpr(r.Headers.Attribute())
+	}
+	if r.Trailers != nil {
+		res.Trailers = NewMappedAttributeExpr(r.Trailers.Attribute())
+	}
+	return &res
 }
